@@ -183,6 +183,13 @@ def case(spec):
                 if all((b - a) * 18 <= 1023 for a, b in zip(starts, ends)):
                     break
                 nv = min(8, nv + 1)
+            if idx % 3 == 2:
+                # the letters need not follow the order of the volumes on the disc: the limit of a volume is the
+                # start of whichever volume comes next on the disc (or the end of the disc)
+                ext_ = list(zip(starts, ends))
+                rng.shuffle(ext_)
+                starts, ends = [a for a, _ in ext_], [b for _, b in ext_]
+                res.add('opus_tables_not_in_disc_order', 1)
             tv = (idx // 6) % nv        # target volume (every volume A..H gets its turn)
             vols = []
             target = None
